@@ -91,14 +91,19 @@ def build_lib(outdir, name, cc, extra, incdir, prefix=None, rename_sections=Fals
                 f.write("%s refalloc_%s\n" % (fn, fn))
         run(["objcopy", "--redefine-syms=" + mapping, rel])
     if rename_sections:
-        # library-owned writable static storage goes onto its own pages (§2.5)
-        secs = run(["objdump", "-h", rel])
-        args = []
-        for m in re.finditer(r"^\s*\d+\s+(\.(?:data|bss)[\w.]*)\s", secs, re.M):
-            sec = m.group(1)
-            if sec.startswith(".data.rel.ro"):
+        # library-owned writable static storage goes onto its own pages (§2.5): EVERY allocated writable
+        # section of the library (not only .data/.bss — also custom-named ones a change might introduce) is
+        # renamed, except thread-local storage (not shared), RELRO (read-only at run time anyway) and the
+        # instrumentation's own bookkeeping
+        secs = run(["readelf", "-S", "-W", rel])
+        args, seen = [], set()
+        keep = ("__sancov", ".init_array", ".fini_array", ".ctors", ".dtors", ".data.rel.ro", "h3wdata", "h3wbss")
+        for m in re.finditer(r"^\s*\[\s*\d+\]\s+(\S+)\s+(PROGBITS|NOBITS)\s+\S+\s+\S+\s+\S+\s+\S+\s+(\S+)\s", secs, re.M):
+            sec, typ, flags = m.group(1), m.group(2), m.group(3)
+            if "W" not in flags or "A" not in flags or "T" in flags or sec.startswith(keep) or sec in seen:
                 continue
-            if sec.startswith(".bss"):
+            seen.add(sec)
+            if typ == "NOBITS":
                 args += ["--rename-section", sec + "=h3wbss,alloc"]
             else:
                 args += ["--rename-section", sec + "=h3wdata,alloc,load,data,contents"]
